@@ -301,6 +301,12 @@ def appender_configs(ctx):
         dict(threads=4, ps=24, cap=64, files=1, rot=0, n=700, discard=100, nosleep=1),
         dict(threads=4, ps=32, cap=64, files=2, rot=3, n=500, discard=60, nosleep=1),
         dict(threads=3, ps=64, cap=16, files=1, rot=0, n=400, discard=30),
+        # initialize / close repeated on the same appender and file objects
+        dict(threads=3, ps=32, cap=64, files=2, rot=3, n=40, sessions=3),
+        dict(threads=2, ps=24, cap=4, files=3, rot=0, n=25, sessions=2, drain=0, discard=20),
+        # file objects without a descriptor (fd < 0) for a while: the entries are lost, their pages are not
+        dict(threads=2, ps=32, cap=16, files=2, rot=0, n=90, outage=1, sessions=2),
+        dict(threads=4, ps=24, cap=256, files=1, rot=2, n=120, outage=1),
     ]
     for c in fixed:
         c["seed"] = rng.randrange(1, 1 << 30)
@@ -317,7 +323,25 @@ def appender_configs(ctx):
         if rng.random() < 0.35:
             c["discard"] = rng.choice([10, 50, 90])
             c["nosleep"] = rng.choice([0, 1])
+        if rng.random() < 0.3:
+            c["sessions"] = rng.choice([2, 3])
+        if rng.random() < 0.25 and c["n"] >= 20:
+            c["outage"] = 1
         cfgs.append(c)
+    return ["run " + " ".join("%s=%d" % kv for kv in c.items()) for c in cfgs]
+
+
+def contention_configs(ctx):
+    """all threads call write() back to back from a spin barrier (pre-built tiny entries): the queue
+    index must be claimed atomically.  Own process + short timeout: a lost ticket wedges the writer."""
+    rng = ctx.rng
+    cfgs = [dict(threads=8, ps=64, cap=1024, files=1, rot=0, n=1200, burst=1, tiny=1),
+            dict(threads=8, ps=64, cap=64, files=2, rot=0, n=800, burst=1, tiny=1, drain=0)]
+    if not ctx.quick:
+        cfgs += [dict(threads=rng.choice([4, 6, 8]), ps=64, cap=rng.choice([16, 256, 1024]), files=rng.choice([1, 2]), rot=0,
+                      n=1000, burst=1, tiny=1, sessions=rng.choice([1, 2])) for _ in range(6)]
+    for c in cfgs:
+        c["seed"] = rng.randrange(1, 1 << 30)
     return ["run " + " ".join("%s=%d" % kv for kv in c.items()) for c in cfgs]
 
 
@@ -362,22 +386,28 @@ def run_appender(ctx, exe, drv):
     if not close_ok:
         # close() with a backlog wedges on this tree: keep the remaining runs meaningful by draining first
         cfgs = [c.replace(" drain=0", "") for c in cfgs]
-    dist = {"runs": 0, "threads": {}, "entries": 0, "concurrent_discards": 0, "runs_with_discard": 0, "rounds": 0, "rotations": 0, "entries_spanning_two_writev": 0,
+    dist = {"runs": 0, "threads": {}, "entries": 0, "concurrent_discards": 0, "runs_with_discard": 0, "multi_session_runs": 0,
+            "outage_flushes": 0, "entries_lost_in_outage": 0, "burst_contention_runs": 0, "rounds": 0, "rotations": 0, "entries_spanning_two_writev": 0,
             "max_batch": 0, "max_writev_elems": 0, "trace_lines_replayed": 0, "oracle_failures": 0, "divergences": 0,
             "capacities": {}}
     nproc = max(1, min(NPROC, len(cfgs)))
     groups = [cfgs[i::nproc] for i in range(nproc)]
+    burst = contention_configs(ctx)
+    if not close_ok:
+        burst = [c.replace(" drain=0", "") for c in burst]
+    groups += [[c] for c in burst]
+    cfgs = cfgs + burst
 
     def one(group):
         try:
             r = subprocess.run([str(exe), "appender"], input="\n".join(group) + "\n", capture_output=True, text=True,
-                               timeout=280)
+                               timeout=90 if "burst=1" in group[0] else 280)
             return group, r.stdout, r.returncode, r.stderr
         except subprocess.TimeoutExpired as e:
             return group, (e.stdout or b"").decode() if isinstance(e.stdout, bytes) else (e.stdout or ""), -999, "timeout"
 
     nontrivial = set()
-    with concurrent.futures.ThreadPoolExecutor(max_workers=nproc) as ex:
+    with concurrent.futures.ThreadPoolExecutor(max_workers=len(groups)) as ex:
         results = list(ex.map(one, groups))
     for group, out, rc, err in results:
         blocks, partial = parse_blocks(out)
@@ -395,6 +425,10 @@ def run_appender(ctx, exe, drv):
             dist["entries"] += int(st.get("entries", 0))
             dist["concurrent_discards"] += int(st.get("discards", 0))
             dist["runs_with_discard"] += 1 if int(st.get("discards", 0)) and int(cfg["threads"]) >= 2 else 0
+            dist["multi_session_runs"] += 1 if int(st.get("sessions", 1)) > 1 else 0
+            dist["outage_flushes"] += int(st.get("outage_flushes", 0))
+            dist["entries_lost_in_outage"] += int(st.get("lost_in_outage", 0))
+            dist["burst_contention_runs"] += 1 if cfg.get("burst") == "1" else 0
             dist["rounds"] += int(st.get("rounds", 0))
             dist["rotations"] += int(st.get("rotations", 0))
             dist["entries_spanning_two_writev"] += int(st.get("spans", 0))
@@ -495,7 +529,13 @@ def run(ctx):
         "part B (sampling of OS schedules, not proof): runs of the real AsyncFileAppender with 1-4 logging threads x n entries "
         "(lengths around ps, K*ps+-1, (K-1+E)*ps+-1, random up to (K+2E+2)*ps, header-only), queue capacity 1..1024, 1-3 memfd-backed "
         "recording FileObjects, rotation every 0/1/2/3/5/7 descriptor checks, optional slow first round to build a backlog (batches "
-        "of more than IOV_MAX iovecs, entries spanning two writev calls), close() after the writers joined and the queue drained; "
+        "of more than IOV_MAX iovecs, entries spanning two writev calls), close() after the writers joined, with the queue drained or "
+        "still loaded; in a third of the runs the logging threads also discard() 10-100 % of their entries concurrently (3 fixed runs: "
+        "4 threads x 400-700 back-to-back discards) - NATIVE threads and repetition, not a deterministic scheduler (no VRT), so a race "
+        "is found with high probability, not certainty; multi-session runs (initialize/close 2-3 times on the same appender and file "
+        "objects); outage runs (the file objects return fd < 0 for the middle third of thread 0's entries: those entries are expected "
+        "to be absent, their pages must be returned); burst runs (8 threads call write() back to back from a spin barrier with "
+        "pre-built one-page entries, own process, 90 s timeout: a ticket claimed twice loses an entry and wedges the writer); "
         "oracle: every entry exactly once, intact, within one descriptor, per-thread order (per file and across rounds), all pages "
         "returned, no bad free, writev <= IOV_MAX; then the recorded rounds (writev/deallocate/descriptor-check calls) are replayed "
         "event by event through App.step and must equal the model's flushes. Non-trivial run: >= 2 threads and >= 20 entries.")
@@ -515,6 +555,8 @@ def run(ctx):
             "recorded rounds through App.step; the order of write() tickets is reconstructed from the output (per-thread order is "
             "checked independently by the oracle), so the replay validates batching/chunking/flush/page-return, not queue fairness",
             "close() on a full queue: one fixed schedule per run",
+            "write() contention: native threads from a spin barrier (about 16 thousand back-to-back pushes per quick check), pinned in "
+            "addition by gen_queue_pairing (writePushConcurrent/closePushConcurrent = true)",
             "concurrent discard(): native threads + repetition (thousands of overlapping discards per check); thread-locality of its "
             "scratch vectors is additionally pinned by gen_appender_shapes (discardScratchPerThread)",
         ],
